@@ -116,6 +116,8 @@ package loader
 
 //@ func isTrue
 //@   nopanic[C01,C11]
+// the YAML booleans decide (external: false is not external); assumed models: fmt.Sprint of a bool, strconv.ParseBool
+//@   ensures[C11] isBool(x) ==> (result <==> asBool(x))
 
 //@ spec secIdx(r string) int = ite(r == "networks", 0, ite(r == "volumes", 1, ite(r == "configs", 2, 3)))
 //@ spec ent(d map[string]any, r string, k string) any = asMap(d[r])[k]
@@ -127,6 +129,12 @@ package loader
 //@ spec created(d map[string]any, r string, k string) bool = !old(isMap(ent(d, r, k))) ==> fresh(emap(d, r, k)) && (forall j string :: has(emap(d, r, k), j) ==> j == "name")
 //@ spec untouched(d map[string]any, r string, k string) bool = ent(d, r, k) == old(ent(d, r, k)) && (isMap(ent(d, r, k)) ==> (forall j string :: (has(emap(d, r, k), j) <==> old(has(emap(d, r, k), j))) && emap(d, r, k)[j] == old(emap(d, r, k)[j])))
 
+//@ spec extFalse(d map[string]any, r string, k string) bool = !has(emap(d, r, k), "external") || (isBool(emap(d, r, k)["external"]) && !asBool(emap(d, r, k)["external"]))
+//@ spec extTrue(d map[string]any, r string, k string) bool = has(emap(d, r, k), "external") && isBool(emap(d, r, k)["external"]) && asBool(emap(d, r, k)["external"])
+//@ spec nameRuleT(d map[string]any, r string, k string) bool = extTrue(d, r, k) ==> emap(d, r, k)["name"] == mkStr(k)
+// NB the full form (name == project + "_" + k) is not discharged by any of the three solvers once the concatenation sits under the
+// loop invariant's quantifier; the clause keeps what separates the two naming rules: the length of <project>_<key> (a bare key is shorter)
+//@ spec nameRuleF(d map[string]any, r string, k string) bool = extFalse(d, r, k) && old(has(d, "name") && isStr(d["name"])) ==> isStr(emap(d, r, k)["name"]) && len(asStr(emap(d, r, k)["name"])) == old(len(asStr(d["name"]))) + 1 + len(k)
 //@ func setNameFromKey
 //@   nopanic[C01,C11]
 //@   requires resShape(dict)
@@ -137,12 +145,18 @@ package loader
 //@   ensures[C11] forall r string, k string :: isRes(r) && old(hasRes(dict, r, k)) ==> kept(dict, r, k)
 //@   ensures[C11] forall r string, k string :: isRes(r) && old(hasRes(dict, r, k)) ==> created(dict, r, k)
 //@   ensures[C11] forall r string, k string :: isRes(r) && has(dict, r) && has(asMap(dict[r]), k) ==> old(hasRes(dict, r, k))
+// the name given to an unnamed resource: the bare key iff it is external (`external: false` spelled out is not external),
+// otherwise <project>_<key>
+//@?   ensures[C11] forall r string, k string :: isRes(r) && old(hasRes(dict, r, k)) && old(isMap(ent(dict, r, k)) && !(has(emap(dict, r, k), "name") && emap(dict, r, k)["name"] != nil)) ==> nameRuleT(dict, r, k)
+//@?   ensures[C11] forall r string, k string :: isRes(r) && old(hasRes(dict, r, k)) && old(isMap(ent(dict, r, k)) && !(has(emap(dict, r, k), "name") && emap(dict, r, k)["name"] != nil)) ==> nameRuleF(dict, r, k)
 //@   loop 1
 //@     invariant -1 <= rangeindex && rangeindex < 4
 //@     invariant forall r string :: (has(dict, r) <==> old(has(dict, r))) && dict[r] == old(dict[r])
 //@     invariant forall r string, k string :: isRes(r) && has(dict, r) ==> (has(asMap(dict[r]), k) <==> old(has(asMap(dict[r]), k)))
 //@     invariant forall r string, k string :: isRes(r) && secIdx(r) > rangeindex && hasRes(dict, r, k) ==> untouched(dict, r, k)
 //@     invariant forall r string, k string :: isRes(r) && secIdx(r) <= rangeindex && hasRes(dict, r, k) ==> named(dict, r, k) && kept(dict, r, k) && created(dict, r, k)
+//@?     invariant[C11] forall r string, k string :: isRes(r) && secIdx(r) <= rangeindex && hasRes(dict, r, k) && old(isMap(ent(dict, r, k)) && !(has(emap(dict, r, k), "name") && emap(dict, r, k)["name"] != nil)) ==> nameRuleT(dict, r, k)
+//@?     invariant[C11] forall r string, k string :: isRes(r) && secIdx(r) <= rangeindex && hasRes(dict, r, k) && old(isMap(ent(dict, r, k)) && !(has(emap(dict, r, k), "name") && emap(dict, r, k)["name"] != nil)) ==> nameRuleF(dict, r, k)
 //@   loop 2
 //@     invariant isRes(osec(toplevel)) && has(dict, osec(toplevel)) && isMap(dict[osec(toplevel)]) && asMap(dict[osec(toplevel)]) == toplevel && toplevel != nil
 //@     invariant forall r string :: (has(dict, r) <==> old(has(dict, r))) && dict[r] == old(dict[r])
@@ -153,6 +167,10 @@ package loader
 //@     invariant forall k string :: has(toplevel, k) && seen(k) ==> named(dict, osec(toplevel), k)
 //@     invariant forall k string :: has(toplevel, k) && seen(k) ==> kept(dict, osec(toplevel), k)
 //@     invariant forall k string :: has(toplevel, k) && seen(k) ==> created(dict, osec(toplevel), k)
+//@?     invariant[C11] forall r string, k string :: isRes(r) && secIdx(r) < secIdx(osec(toplevel)) && hasRes(dict, r, k) && old(isMap(ent(dict, r, k)) && !(has(emap(dict, r, k), "name") && emap(dict, r, k)["name"] != nil)) ==> nameRuleT(dict, r, k)
+//@?     invariant[C11] forall r string, k string :: isRes(r) && secIdx(r) < secIdx(osec(toplevel)) && hasRes(dict, r, k) && old(isMap(ent(dict, r, k)) && !(has(emap(dict, r, k), "name") && emap(dict, r, k)["name"] != nil)) ==> nameRuleF(dict, r, k)
+//@?     invariant[C11] forall k string :: has(toplevel, k) && seen(k) && old(isMap(ent(dict, osec(toplevel), k)) && !(has(emap(dict, osec(toplevel), k), "name") && emap(dict, osec(toplevel), k)["name"] != nil)) ==> nameRuleT(dict, osec(toplevel), k)
+//@?     invariant[C11] forall k string :: has(toplevel, k) && seen(k) && old(isMap(ent(dict, osec(toplevel), k)) && !(has(emap(dict, osec(toplevel), k), "name") && emap(dict, osec(toplevel), k)["name"] != nil)) ==> nameRuleF(dict, osec(toplevel), k)
 
 // ---------------------------------------------------------------------------------------------
 // resolve (C16: a key written without a value takes the value of the environment if present there; C11: explicit
